@@ -590,6 +590,12 @@ func isLower(r rune) bool { return unicode.IsLower(r) }
 // directive: drop nulls, reject stray markers, unescape $$.
 // A nil Val with Accept means "emits nothing".
 func Final(v any) Result {
+	// $merge/$replace keys are looked at before null entries are dropped,
+	// everything later after: consult both views.
+	if y, why := interpreted(v, true); y {
+		return uns("evaluation directive present: %s", why)
+	}
+	v = DropNulls(v)
 	if y, why := interpreted(v, true); y {
 		return uns("evaluation directive present: %s", why)
 	}
@@ -667,3 +673,29 @@ func unescape(s string) string {
 
 // SortStrings is a tiny helper used by several checks.
 func SortStrings(s []string) []string { sort.Strings(s); return s }
+
+// DropNulls removes null map values and null list entries recursively.
+func DropNulls(v any) any {
+	switch x := v.(type) {
+	case map[string]any:
+		m := make(map[string]any, len(x))
+		for k, c := range x {
+			if c == nil {
+				continue
+			}
+			m[k] = DropNulls(c)
+		}
+		return m
+	case []any:
+		l := []any{}
+		for _, c := range x {
+			if c == nil {
+				continue
+			}
+			l = append(l, DropNulls(c))
+		}
+		return l
+	default:
+		return v
+	}
+}
